@@ -23,7 +23,7 @@ pub fn hues(tier: Tier) -> Vec<f64> {
 }
 
 /// Hues outside [0, 360) for the polar types (the hue type accepts any real).
-pub const EXTRA_POLAR_HUES: [f64; 5] = [-180.0, -10.0, 360.0, 370.0, 720.0];
+pub const EXTRA_POLAR_HUES: [f64; 8] = [-180.0, -10.0, 360.0, 370.0, 720.0, -30.0, -36.0, 36.0];
 
 pub struct Spec {
     pub ls: &'static [f64],
@@ -68,6 +68,14 @@ pub fn rect_lattice<T: Fl>(space: Space, tier: Tier) -> Vec<[T; 3]> {
     for &l in sp.ls {
         for &a in sp.cart {
             for &b in sp.cart {
+                v.push([f(l), f(a), f(b)]);
+            }
+        }
+    }
+    // exact mirror pairs about +a* with chroma ratios 2, 4, 8 (Σ h' = 360° exactly, see checks::exact_mirror)
+    if space.rect() == Space::Lab {
+        for &l in sp.ls {
+            for (a, b) in [(40.0, 30.0), (20.0, -15.0), (10.0, 7.5), (5.0, -3.75), (64.0, 3.0), (16.0, -0.75), (3.0, 88.0), (1.5, -44.0)] {
                 v.push([f(l), f(a), f(b)]);
             }
         }
